@@ -71,48 +71,10 @@ def hev_to_coq(e):
     return '(HSetAdminDown %s)' % cbool(e[1])
 
 # ------------------------------------------------------------- known classes
-# decidable predicates of the event history (mirrored by Known_C10_k in Spec/GrSpec.v)
+# All findings C10-1..C10-6 are repaired; no input class is excluded any more.
 def known_classes(evs):
-    """set of finding ids whose input class this history belongs to"""
-    ks = set()
-    admin = False
-    sess = None
-    helper = False          # the property allows retained routes (a helper-mode drop happened and is not over)
-    llgr_running = set()    # families whose LLGR period may be running
-    llgr_pending = set()    # LLGR families of the last eligible drop (period starts at restart-timer expiry)
-    for e in evs:
-        t = e[0]
-        if t == 'admin':
-            admin = e[1]
-        elif t == 'up' and sess is None:
-            sess = e
-            gr = set(e[2][0]) if e[2] else set()
-            ll = set(f for f, _ in e[3]) if e[3] else set()
-            if e[2] and e[3] and not gr <= ll:
-                ks.add('C10-4')       # GR families outside the LLGR families: no timer after restart-timer expiry
-            if e[3] and e[2] and not ll <= gr:
-                ks.add('C10-5')       # LLGR families outside the GR families: kept but not marked
-            if llgr_running and gr and not llgr_running <= gr:
-                ks.add('C10-3')       # re-established during LLGR without re-negotiating GR for a staling family
-            llgr_running = set(); llgr_pending = set()
-        elif t == 'rtimer' and sess is None:
-            llgr_running |= llgr_pending
-        elif t == 'ann' and e[4]:
-            ks.add('C10-6')           # fresh route carrying LLGR_STALE is purged with the stale ones
-        elif t == 'down' and sess is not None:
-            nbit = bool(sess[2] and sess[2][2])
-            applies = gr_applies(e[1], nbit) and not admin
-            if (sess[2] or sess[3]) and not (applies if sess[2] else (e[1] == 0 and not admin)):
-                ks.add('C10-2')       # GR/LLGR negotiated, drop reason not eligible: routes stale-marked, nothing armed
-            if sess[3]:
-                if sess[2] is None:
-                    llgr_running = set(f for f, _ in sess[3])
-                else:
-                    llgr_pending = set(f for f, _ in sess[3])
-            sess = None
-        elif t == 'fail':
-            ks.add('C10-1')           # connection attempt that ends before Established
-    return ks
+    """set of open finding ids whose input class this history belongs to"""
+    return set()
 
 class Prop:
     pid = 'C10'
